@@ -9,7 +9,10 @@ use core::mem::forget;
 // index any I-JSON integer.
 macro_rules! c11_index {
     ($name:ident, $len:expr) => {
-        proof!($name, 7, {
+        c11_index!($name, $len, proof, 7);
+    };
+    ($name:ident, $len:expr, $pm:ident, $unwind:expr) => {
+        $pm!($name, $unwind, {
             let a = marker_array($len);
             let doc = Mini::Arr(a);
             let i = any_ijson();
@@ -35,6 +38,7 @@ c11_index!(c11_index_len0, 0);
 c11_index!(c11_index_len1, 1);
 c11_index!(c11_index_len3, 3);
 c11_index!(c11_index_len4, 4);
+c11_index!(c11_index_len8, 8, proof_k8, 10);
 
 // ---------------------------------------------------------------------------
 // C11 / C02 / C08: slice selector against the RFC 9535 2.3.4.2.2 pseudo-code.
@@ -77,6 +81,8 @@ c11_slice!(c11_slice_len4, 4, 6);
 // thorough tier: longer arrays under the K = 8 allocation regime
 c11_slice!(c11_slice_len5, 5, 7, proof_k8);
 c11_slice!(c11_slice_len6, 6, 8, proof_k8);
+c11_slice!(c11_slice_len7, 7, 9, proof_k8);
+c11_slice!(c11_slice_len8, 8, 10, proof_k8);
 
 // ---------------------------------------------------------------------------
 // C01 / C02: wildcard selector (RFC 9535 2.3.2): all children, document order,
